@@ -143,7 +143,7 @@ Proof. intros batch Hb gh c s0 Hi K s Hv. exact (di_pc batch gh s0 K s (dinv_vie
    the repaired prevote-threshold formula and the overflow rejection, the parameter-cache loop over heights). On every valid
    chain whose heights stay <= 2^32-2 and whose aggregate weights stay < 2^64 it computes exactly what the unbounded model
    computes (results AND error codes), so every theorem above transfers to the wrap-faithful model under exactly that bound.
-   The refutations show what happens AT the bound. *)
+   (What happens AT the bound is outside every statement: hypothesis gh + length K < 2^32 - 1.) *)
 From LE Require Import BFT.Votes32 BFT.Votes32Proofs.
 Theorem C02_votes32_agrees : forall batch gh c s0 K, (0 < batch)%nat ->
   init_store batch gh c = Ok s0 -> total_weight (c_vals c) < M64 ->
@@ -175,6 +175,18 @@ Theorem C02_set_parameters_spec : forall batch s pcT certT vals s' tip,
              | None => {| a_addr := fst x; a_min := tip + 1; a_lhp := tip |}
              end))).
 Proof. exact set_params_spec. Qed.
+(* ... and the no-op case is EXACTLY the case "the requested parameters are the ones in force at the current height" (same
+   validators with the same weights in canonical order, same precommit and certificate threshold); otherwise the requested
+   parameters are what GetBFTParameters returns for the next height. *)
+Theorem C02_set_parameters_noop_iff : forall batch s pcT certT vals s' tip,
+  Inv tip s -> set_params batch s pcT certT vals = Ok s' ->
+  (in_force_equal s tip pcT certT vals = true /\ s' = s) \/
+  (in_force_equal s tip pcT certT vals = false /\
+   get_params (s_params s') (tip + 1) =
+     Ok {| p_pv := total_weight vals * 2 / 3 + 1; p_pc := pcT; p_cert := certT; p_vals := sort_desc vals |}).
+Proof. exact set_params_noop_iff. Qed.
+Theorem C02_validator_lists_equal_spec : forall a b, vals_equal a b = true <-> a = b.
+Proof. exact vals_equal_spec. Qed.
 (* non-vacuity: the genesis store satisfies the invariant and accepts a 4-validator set *)
 Example C02_set_parameters_example :
   Inv 0 (genesis_store 0) /\ exists s', set_params 4 (genesis_store 0) 3 3 [(1,1);(2,1);(3,1);(4,1)] = Ok s' /\ s' <> genesis_store 0.
@@ -184,3 +196,8 @@ Proof. split; [exact (genesis_inv 0)|]. eexists. split; [vm_compute; reflexivity
 Theorem C02_certified_height_rule : forall batch s b s1, before_txs batch s b = Ok s1 ->
   v_mhc (s_votes s1) = match h_cert b with Some h => h | None => v_mhc (s_votes s) end.
 Proof. exact certified_height_rule. Qed.
+(* chain level: after any chain, maxHeightCertified is the height named by its newest non-empty aggregate commit (the value
+   before the chain if there is none) *)
+Theorem C02_certified_height_of_chain : forall batch K s s', run_blocks batch s K = Ok s' ->
+  v_mhc (s_votes s') = newest_cert K (v_mhc (s_votes s)).
+Proof. exact certified_height_of_chain. Qed.
